@@ -47,6 +47,10 @@ let big = z_of_string "4000000000000000000"
 let in_range z = (match Z.add z big with Zneg _ -> false | _ -> true) && (match Z.add (Z.opp z) big with Zneg _ -> false | _ -> true)
 
 let () =
+  (* C07 plain view: TTML sources are library-written, i.e. inside xml_parse's subset *)
+  Drv_plain.register_plain 4 ttml_dec ttml_enc
+    (fun d -> match xml_parse d with Some t -> doc_time_simple t | None -> false);
+  register "ttmlopt" (fun r -> let d = rtdoc r in pint 0; ptdoc (ttml_optimize d));
   register "ttmlconst" (fun r -> pint (rint r));
   register "ttmltime" (fun r ->
     let s = rstr r in let fr = rz r in let tr = rz r in
